@@ -55,18 +55,22 @@ Eof == /\ R.e = "eof"
        /\ (rstat[i] # "err" => (wclosed[i] /\ delivered[i] = sent[i])) = TRUE   \* clean EOF only after everything; after an error Ok(0) is harmless
        /\ rstat' = [rstat EXCEPT ![i] = IF @ = "err" THEN "err" ELSE "eof"]
        /\ UNCHANGED <<sent, delivered, wclosed, corrupted, integrity>>
-ReadErr == /\ R.e = "rerr" /\ corrupted[i] /\ rstat[i] # "eof"     \* no failure without a fault
+AnyFault == corrupted[1] \/ corrupted[2]      \* after tampering the whole session may legitimately be torn down
+ReadErr == /\ R.e = "rerr" /\ AnyFault = TRUE /\ rstat[i] # "eof"     \* no failure without a fault
            /\ rstat' = [rstat EXCEPT ![i] = "err"]
            /\ UNCHANGED <<sent, delivered, wclosed, corrupted, integrity>>
+WriteErr == /\ R.e = "werr" /\ AnyFault = TRUE
+            /\ UNCHANGED <<sent, delivered, wclosed, rstat, corrupted, integrity>>
 Quiesce == /\ R.e = "quiesce"
            /\ ((R.up[1] /\ R.up[2]) =>
                 \A k \in 1..2 :
                   IF R.hit[k] /\ integrity
                   THEN (wclosed[k] => rstat[k] = "err") /\ rstat[k] # "eof"
-                  ELSE /\ (~R.hit[k] => (delivered[k] = sent[k] /\ rstat[k] # "err"))
-                       /\ (wclosed[k] /\ ~R.hit[k] => rstat[k] = "eof")) = TRUE
+                  ELSE (~(R.hit[1] \/ R.hit[2]) =>                         \* no tampering took effect: transparent
+                          /\ delivered[k] = sent[k] /\ rstat[k] # "err"
+                          /\ (wclosed[k] => rstat[k] = "eof"))) = TRUE
            /\ UNCHANGED <<sent, delivered, wclosed, rstat, corrupted, integrity>>
-Next == l <= NRec /\ l' = l + 1 /\ (Reset \/ Hs \/ Write \/ Noop \/ Close \/ Corrupt \/ Read \/ Eof \/ ReadErr \/ Quiesce)
+Next == l <= NRec /\ l' = l + 1 /\ (Reset \/ Hs \/ Write \/ Noop \/ Close \/ Corrupt \/ Read \/ Eof \/ ReadErr \/ WriteErr \/ Quiesce)
 Spec == Init /\ [][Next]_vars
 PrefixOK == \A k \in 1..2 : delivered[k] <= sent[k]
 Progress == Mark(l)
